@@ -10,6 +10,7 @@ import (
 	"time"
 
 	"github.com/scionproto/scion/pkg/addr"
+	"github.com/scionproto/scion/pkg/drkey"
 	"github.com/scionproto/scion/pkg/slayers"
 	"github.com/scionproto/scion/pkg/snet"
 
@@ -435,6 +436,34 @@ func c13E2E(r *ev.Run) {
 	if r.Only() == "" || r.Only()[0] == 'e' {
 		c13ClientWith(r, c13ClientCfg{prefix: "e", hosts: [2]int{31, 32}, fetcher: scion.NewFetcher(dc), key: key,
 			extraModes: []string{"key:roles exchanged", "key:another client host", "key:another server host", "key:another client ISD-AS", "key:another server ISD-AS", "key:previous epoch", "key:another protocol"}})
+	}
+	// ---- the listener's level-2 key cache on its own: whatever the order of reception times and
+	// identities, the key handed out is the key of the epoch that contains the reception time
+	if r.Only() == "" {
+		fe := scion.NewFetcher(dc)
+		frng := r.Rng("c13fetcher")
+		base := time.Now()
+		offs := []time.Duration{0, 10 * time.Minute, -10 * time.Minute, epoch, epoch + time.Minute, -epoch, 2 * epoch, -time.Minute, epoch - time.Minute, 3 * epoch, 3*epoch - time.Second}
+		ias := []addr.IA{c05LIA, c05RIA, otherIA}
+		hosts := []string{"127.0.0.1", "10.9.8.7", "fd00::99"}
+		for i := 0; i < r.Pick(300, 20000); i++ {
+			t := base.Add(offs[frng.IntN(len(offs))])
+			meta := drkey.HostASMeta{ProtoId: scion.DRKeyProtocolTS, Validity: t, SrcIA: ias[frng.IntN(2)], DstIA: ias[frng.IntN(3)], SrcHost: hosts[frng.IntN(3)]}
+			k, err := fe.FetchHostASKey(ctx, meta)
+			r.Eval(1)
+			want := d.HostASKey(proto, uint64(meta.SrcIA), uint64(meta.DstIA), meta.SrcHost, t)
+			w := map[string]any{"step": i, "reception_time_offset": t.Sub(base).String(), "identity": fmt.Sprint(meta.SrcIA, ",", meta.SrcHost, "<-", meta.DstIA), "error": fmt.Sprint(err),
+				"epoch": fmt.Sprint(k.Epoch.NotBefore.Sub(base), "..", k.Epoch.NotAfter.Sub(base))}
+			if err != nil {
+				r.Violation("scion.Fetcher|wrong-value:key fetch fails although the key service answers", fmt.Sprintf("f%d", i), w)
+				break
+			}
+			if !k.Epoch.Contains(t) || k.Key != want || k.SrcIA != meta.SrcIA || k.DstIA != meta.DstIA || k.SrcHost != meta.SrcHost {
+				r.Violation("scion.Fetcher|wrong-value:host-AS key handed out is not the key of the requested identity in the epoch that contains the reception time", fmt.Sprintf("f%d", i), w)
+				break
+			}
+		}
+		r.Class("drkey:level-2 key cache returns the key of the identity and epoch asked for, in any order")
 	}
 	if r.Only() != "" && r.Only()[0] != 'r' {
 		return
